@@ -328,13 +328,145 @@ func VP_C05_image_mkdir_1k() {
 		return
 	}
 	vp.NoPanic()
-	err := fsys.Mkdir("/d")
+	err := fsys.Mkdir("d")
 	vp.AllowPanic()
+	vp.Assert(err == nil, "a directory can be made on a fresh volume")
 	if err == nil {
 		c05CheckImage(dev.img, seed, 1)
 		vp.Cover("directory made and image checked")
-	} else {
-		c05CheckImage(dev.img, seed, -1)
-		vp.Cover("mkdir refused and image checked")
 	}
+}
+
+// c05FileData returns the bytes of the regular file `ino` as a reader of the image sees them
+// (extent root in the inode, depth 0): what debugfs would extract.
+func c05FileData(g *c05Geo, ino int) []byte {
+	in := g.readInode(ino)
+	ib := in.raw[0x28:0x64]
+	n := int(c05le16(ib, 2))
+	out := make([]byte, in.size)
+	for k := 0; k < n && k < 4; k++ {
+		o := 12 + 12*k
+		fb, ln := int(c05le32(ib, o)), int(c05le16(ib, o+4))
+		st := int(c05le32(ib, o+8)) | int(c05le16(ib, o+6))<<32
+		for j := 0; j < ln; j++ {
+			lo := (fb + j) * g.bs
+			if lo >= in.size {
+				break
+			}
+			hi := lo + g.bs
+			if hi > in.size {
+				hi = in.size
+			}
+			copy(out[lo:hi], g.img[(st+j)*g.bs:])
+		}
+	}
+	return out
+}
+
+// c05WriteFile: OpenFile(O_CREATE) + one Write of n arbitrary bytes.
+func c05WriteFile(fsys *FileSystem, name string, data []byte) error {
+	fh, err := fsys.OpenFile(name, 0x40|0x2) // os.O_CREATE|os.O_RDWR
+	if err != nil {
+		return err
+	}
+	w, err := fh.Write(data)
+	if err != nil {
+		return err
+	}
+	vp.Assert(w == len(data), "Write reports all bytes written")
+	return nil
+}
+
+// Create + write a file with arbitrary contents: image clean, and the file as read from the image
+// (by the reference reader) has the bytes written.
+func c05ImageWrite(c c05CreateCase, n int) {
+	fsys, dev, seed := c05Create(c)
+	if fsys == nil {
+		return
+	}
+	data := vp.Bytes("data", n)
+	vp.NoPanic()
+	err := c05WriteFile(fsys, "f", data)
+	vp.AllowPanic()
+	vp.Assert(err == nil, "a small file can be written on a fresh volume")
+	if err != nil {
+		return
+	}
+	c05CheckImage(dev.img, seed, 1)
+	g := c05ReadGeo(dev.img)
+	in := g.readInode(11)
+	vp.Assert(in.links == 1 && in.mode&0xf000 == 0x8000, "inode 11 is the new regular file")
+	vp.Assert(in.size == n, "i_size = bytes written")
+	if in.size == n {
+		got := c05FileData(&g, 11)
+		for i := 0; i < n; i++ {
+			vp.Assert(got[i] == data[i], "file contents in the image = bytes written")
+		}
+		vp.Cover("file written, image checked, contents extracted")
+	}
+}
+
+func VP_C05_image_write_1k() {
+	c05ImageWrite(c05CreateCase{size: 512 * 1024, spb: 2, bpg: 256, features: c05Plain}, vp.Bound("writelen", 1500, 3000))
+}
+func VP_C05_image_write_2k_csum() {
+	f := append([]FeatureOpt{WithFeatureMetadataChecksums(true)}, c05Plain...)
+	c05ImageWrite(c05CreateCase{size: 1024 * 1024, spb: 4, bpg: 256, features: f}, vp.Bound("writelen2", 2100, 5000))
+}
+
+// Create + write + Remove (the Remove is taken or not by a symbolic flag): after Remove the inode and
+// the blocks of the file are free again, nothing else changed, counts agree with the bitmaps.
+func VP_C05_image_remove_1k() {
+	fsys, dev, _ := c05Create(c05CreateCase{size: 512 * 1024, spb: 2, bpg: 256, features: c05Plain})
+	if fsys == nil {
+		return
+	}
+	data := vp.Bytes("data", 1500)
+	if c05WriteFile(fsys, "f", data) != nil {
+		return
+	}
+	before := c05Snapshot(dev.img)
+	g0 := c05ReadGeo(before)
+	in0 := g0.readInode(11)
+	ib := in0.raw[0x28:0x64]
+	fileStart := int(c05le32(ib, 12+8))
+	fileLen := int(c05le16(ib, 12+4))
+	vp.Assert(fileLen == 2 && in0.links == 1, "fixture: a two-block file in inode 11")
+	if !vp.Bool("doRemove") {
+		vp.Cover("file written")
+		return
+	}
+	vp.NoPanic()
+	err := fsys.Remove("f")
+	vp.AllowPanic()
+	vp.Assert(err == nil, "an existing file can be removed")
+	if err != nil {
+		return
+	}
+	g := c05ReadGeo(dev.img)
+	ibm0, ibm := g0.inodeBitmapLoc(0)*g.bs, g.inodeBitmapLoc(0)*g.bs
+	vp.AssertUnless("KF-C05-7", true, !c05Bit(dev.img, ibm, 10), "Remove clears the inode bitmap bit of the removed inode (bit inode-1)")
+	var otherI, otherB uint64
+	for k := 0; k < g.ipg; k++ {
+		if k != 10 && c05Bit(before, ibm0, k) != c05Bit(dev.img, ibm, k) {
+			otherI++
+		}
+	}
+	vp.AssertUnless("KF-C05-7", true, otherI == 0, "Remove changes no other inode bit")
+	bb := g.blockBitmapLoc(0) * g.bs
+	for k := 0; k < g.bpg; k++ {
+		blk := g.fdb + k
+		isFile := blk >= fileStart && blk < fileStart+fileLen
+		if isFile {
+			vp.AssertUnless("KF-C05-7", true, !c05Bit(dev.img, bb, k), "Remove frees the blocks of the file")
+		} else if c05Bit(before, bb, k) != c05Bit(dev.img, bb, k) {
+			otherB++
+		}
+	}
+	vp.AssertUnless("KF-C05-7", true, otherB == 0, "Remove changes no other block bit")
+	vp.AssertUnless("KF-C05-7", true, g.freeBlocksGD(0) == c05ZeroBits(dev.img, bb, 0, g.blocksInGroup(0)), "after Remove: descriptor free blocks = clear bits")
+	vp.AssertUnless("KF-C05-7", true, g.freeBlocksSB() == g0.freeBlocksSB()+uint64(fileLen), "after Remove: superblock free blocks went up by the blocks of the file")
+	vp.AssertUnless("KF-C05-7", true, g.freeInodesGD(0) == c05ZeroBits(dev.img, ibm, 0, g.ipg), "after Remove: descriptor free inodes = clear bits")
+	in := g.readInode(11)
+	vp.AssertUnless("KF-C05-7", true, in.links == 0, "after Remove: the inode is no longer in use (link count 0)")
 }
